@@ -70,6 +70,10 @@ Proof. exact documented_resolve. Qed.
 Theorem C09_unknown_function : forall h name args, assoc_text name (h_funs h) = None -> mem_text name (h_registry h) = false ->
   call_function h name args = (RRaise ENAME, []).
 Proof. exact unknown_function. Qed.
+(* ... where "registered" in the code means, exactly, "is a key of the registry" (generated: source shape of
+   Dispatcher.get_for / get_for / is_supported, near-miss probes on the live registry) *)
+Theorem C09_registry_lookup_as_modelled : registry_lookup_exact = true.
+Proof. exact registry_lookup_as_modelled. Qed.
 Theorem C09_unknown_call_is_name : forall h sp name args vs evs, unknown_fn h name -> xvals (xval h) args = (ROk vs, evs) ->
   xval h (XCall sp name args) = (RRaise ENAME, evs).
 Proof. exact unknown_call_is_name. Qed.
@@ -93,6 +97,7 @@ Example C09_example :
   fst (parse_formula h [70;40;120;44;50;41]) = PResult (VList [VInt 5; VInt 2]) /\ good_name [120] /\ good_name [114;97;116;101;95;50].
 Proof. split; [vm_compute; reflexivity|]. split; [vm_compute; reflexivity|]. split; (split; [repeat constructor|split; [reflexivity|]]); [right; repeat constructor|left; split; [reflexivity|discriminate]]. Qed.
 
+Print Assumptions C09_registry_lookup_as_modelled.
 Print Assumptions C09_parse_is_postorder_evaluation.
 Print Assumptions C09_name_is_one_token.
 Print Assumptions C09_variable_formula.
